@@ -617,7 +617,12 @@ func SignElement(el *etree.Element, pair *keys.Pair, o XMLSignOpts) (*etree.Elem
 	}
 	if !o.KeepAtEnd {
 		// schema position: directly after Issuer
-		signed.RemoveChild(sig)
+		for i, tok := range signed.Child {
+			if tok == etree.Token(sig) {
+				signed.Child = append(signed.Child[:i:i], signed.Child[i+1:]...)
+				break
+			}
+		}
 		pos := 0
 		for i, tok := range signed.Child {
 			if e, ok := tok.(*etree.Element); ok && e.Tag == "Issuer" {
@@ -629,3 +634,6 @@ func SignElement(el *etree.Element, pair *keys.Pair, o XMLSignOpts) (*etree.Elem
 	}
 	return signed, nil
 }
+
+// Finish serialises an (edited) root node in this style.
+func (s Style) Finish(root *Node, rng *mrand.Rand) string { return s.finish(root, rng) }
